@@ -178,7 +178,7 @@ where
     F: for<'b> Fn(&'b str) -> Result<Cow<'b, str>, Error>,
 {
     let mut c = s.into();
-    for _i in 0..=2 {
+    for _i in 0..=3 {
         let tmp = f(&c)?;
         if tmp == c {
             return Ok(c);
@@ -190,7 +190,8 @@ where
         c = Cow::from(tmp.into_owned());
     }
 
-    // The string did not stabilized after applying the rules three times.
+    // The string did not stabilized after applying the rules and
+    // reapplying them three more times.
     Err(Error::Invalid)
 }
 
